@@ -753,6 +753,23 @@ positive_int(const std::string& v)
 std::string
 known_signature_of(const std::string& text, int target, int sub)
 {
+  {
+    // F15: the last line ends in the continuation character
+    std::string t = text;
+    while (!t.empty() && (t.back() == '\n' || t.back() == '\r'))
+      {
+        const char ch = t.back();
+        t.pop_back();
+        if (ch == '\n')
+          {
+            if (!t.empty() && t.back() == '\r')
+              t.pop_back();
+            break; // exactly one line end is stripped: "\\\n\n" ends with an empty line, which is harmless
+          }
+      }
+    if (!t.empty() && t.back() == '\\')
+      return "C17:hang:continuation backslash on the last line";
+  }
   const std::vector<KV> kvs = mini_parse(text);
   for (const KV& kv : kvs)
     {
@@ -1080,8 +1097,40 @@ inspect_projdata(ProjData& pd, Outcome& o)
     }
 }
 
+//! overwrite the part of the stack the readers are going to use: read_interfile_image(istream&) goes on with an
+//! uninitialised char[1000] file name (and a null image pointer) when the header does not parse (finding F14), which makes
+//! the outcome depend on what the previous case left on the stack; zeroes make every case start from the same state
+__attribute__((noinline)) void
+scrub_stack()
+{
+  volatile char pad[192 * 1024];
+  for (std::size_t i = 0; i < sizeof pad; i += 1)
+    pad[i] = 0;
+  asm volatile("" ::: "memory");
+}
+
+Outcome
+run_target_impl(int target, int sub, const std::string& hdr_path, const std::string& text);
+
 Outcome
 run_target(int target, int sub, const std::string& hdr_path, const std::string& text)
+{
+  // "prime:" prefix of the path (only used by the F14 probe): first read the valid image prime.hv with the same reader and do
+  // NOT scrub in between, then read the case's header: the stale file name on the stack is an existing file
+  if (hdr_path.rfind("prime:", 0) == 0)
+    {
+      const std::string real = hdr_path.substr(6);
+      const std::string dir = c17::scratch_dir();
+      scrub_stack();
+      (void)run_target_impl(target, sub, dir + "/prime.hv", c17::read_file(dir + "/prime.hv"));
+      return run_target_impl(target, sub, real, text);
+    }
+  scrub_stack();
+  return run_target_impl(target, sub, hdr_path, text);
+}
+
+Outcome
+run_target_impl(int target, int sub, const std::string& hdr_path, const std::string& text)
 {
   Outcome o;
   const std::string dir = c17::scratch_dir();
@@ -1388,6 +1437,8 @@ const KnownSite KNOWN_SITES[] = {
   // F11: keys registered with the address of a vector element; a later count keyword reallocates the vector
   { "KeyParser::set_variable", false, "heap-use-after-free", "C17:uaf:key registered with &vector[0], vector resized by a later count keyword (F11)" },
   // L4 again, other count keywords
+  // F15: a continuation backslash on the last line: read_line() appends the stale line for ever
+  { "stir::read_line", true, "", "C17:hang:continuation backslash at the end of the input: read_line() never ends and grows its buffer (F15)" },
   { "MultipleDataSetHeader::read_num_data_sets", true, "lloc", "C17:alloc:total number of data sets drives vector::resize (L4)" },
   { "InterfilePDFSHeaderSiemens::read_scan_data_types", true, "lloc", "C17:alloc:number of scan data types drives vector::resize (L4)" },
   { "InterfilePDFSHeaderSiemens::read_bucket_singles_rates", true, "lloc", "C17:alloc:%number of buckets drives vector::resize (L4)" },
@@ -1673,7 +1724,24 @@ run_isolated(int target, int sub, const std::string& hdr_path, const std::string
 //! plain flavour: a crash or a refused allocation is classified by the asan build of the same harness on the same case
 //! (first output line: "PASS ...", "REJECT ..." or "FAIL ..."); "" if that binary is not there
 std::string
+ask_asan_flavour_uncached(const json& c);
+std::string
 ask_asan_flavour(const json& c)
+{
+  // every question costs a process start of the asan binary: answers are remembered, and a worker asks at most 40 times
+  static std::map<uint64_t, std::string> memo;
+  static int asked = 0;
+  const uint64_t h = hash_json(c);
+  auto it = memo.find(h);
+  if (it != memo.end())
+    return it->second;
+  if (asked >= 40 && std::getenv("RC_PARAMS"))
+    return "(not asked: budget of this worker used up)";
+  ++asked;
+  return memo[h] = ask_asan_flavour_uncached(c);
+}
+std::string
+ask_asan_flavour_uncached(const json& c)
 {
   char exe[4096];
   const ssize_t n = readlink("/proc/self/exe", exe, sizeof exe - 1);
@@ -1911,7 +1979,16 @@ check(const json& c)
 #endif
   Outcome o;
   std::size_t refused = 0, max_single = 0;
-  const Isolated iso = run_isolated(target, sub, hdr_path, text, o, refused, max_single);
+  const bool prime = c.value("prime", false);
+  if (prime)
+    {
+      // a small valid image for the F14 probe
+      c17::write_file(dir + "/prime.hv", "!INTERFILE :=\nname of data file := prime.v\n!type of data := PET\nimagedata byte order := LITTLEENDIAN\n!PET data type := Image\n"
+                                          "!number format := float\n!number of bytes per pixel := 4\nnumber of dimensions := 3\n!matrix size [1] := 1\n!matrix size [2] := 1\n"
+                                          "!matrix size [3] := 1\nnumber of time frames := 1\n!END OF INTERFILE :=\n");
+      c17::write_file(dir + "/prime.v", std::string(4, '\0'));
+    }
+  const Isolated iso = run_isolated(target, sub, (prime ? "prime:" : "") + hdr_path, text, o, refused, max_single);
   stir_verif::asserts_on = true;
   if (iso.died == "timeout")
     {
